@@ -3,11 +3,14 @@ package histeng
 import (
 	"fmt"
 	"os"
+	"os/exec"
 	"path/filepath"
 	"regexp"
 	"strings"
+	"syscall"
 	"time"
 
+	"grog/verif/lib/audit"
 	"grog/verif/lib/pbt"
 )
 
@@ -22,6 +25,7 @@ type Observation struct {
 type Oracles struct {
 	FreshCompareEvery int  // every n-th successful build is compared with a from-scratch build (0 = never)
 	Lockstep          bool // C15: play the same history with load_outputs=minimal in a second sandbox
+	Audit             bool // C07: audit the cache directory after every grog invocation
 }
 
 var crashRe = regexp.MustCompile(`(?m)^(panic:|fatal error:|goroutine \d+ \[)`)
@@ -314,6 +318,11 @@ func RunHistory(h History, bin string, orc Oracles) (*Observation, error) {
 					obs.Classes["compared-with-from-scratch-build"] = true
 				}
 			}
+			if orc.Audit {
+				if err := auditSandbox(sb); err != nil {
+					return obs, withHistory(err, obs)
+				}
+			}
 			if orc.Lockstep {
 				modelMin.Ext = model.Ext
 				if err := lockstepBuild(w, o, modelMin, sbMin, res, pred, expect, obs); err != nil {
@@ -322,6 +331,67 @@ func RunHistory(h History, bin string, orc Oracles) (*Observation, error) {
 			}
 			editedSinceBuild = nil
 			perturbedSinceBuild = false
+		case st.Kind == "build-kill" || st.Kind == "build-casfault":
+			o := *st.Build
+			if err := sb.Sync(w); err != nil {
+				return obs, fmt.Errorf("harness: %w", err)
+			}
+			_ = sb.SyncExt(model.Ext)
+			pred := model.Predict(w, o)
+			var res Result
+			if st.Kind == "build-kill" {
+				res = sb.GrogWith("", buildCap, func(cmd *exec.Cmd) {
+					time.Sleep(time.Duration(st.V) * time.Millisecond)
+					_ = syscall.Kill(-cmd.Process.Pid, syscall.SIGKILL)
+				}, buildArgs(o)...)
+				obs.Classes["build-killed"] = true
+				if len(res.Started) > len(res.Ended) {
+					obs.NonTrivial["killed-mid-target"] = true
+				}
+				if len(res.Ended) > 0 && res.Exit != 0 {
+					obs.NonTrivial["killed-after-some-target-finished"] = true
+				}
+			} else {
+				// the blob store cannot be written during this build (a file sits where the directory should be)
+				var moved []string
+				for _, c := range sb.CacheDirs() {
+					cas := filepath.Join(c, "cas")
+					if _, err := os.Stat(cas); err == nil {
+						_ = os.Rename(cas, cas+".aside")
+						moved = append(moved, cas)
+					}
+					_ = os.WriteFile(cas, []byte("not a directory"), 0o644)
+				}
+				res = sb.Build(o, buildCap)
+				for _, c := range sb.CacheDirs() {
+					cas := filepath.Join(c, "cas")
+					_ = os.Remove(cas)
+				}
+				for _, cas := range moved {
+					_ = os.Rename(cas+".aside", cas)
+				}
+				obs.Classes["build-with-unwritable-blob-store"] = true
+				obs.NonTrivial["storage-fault"] = true
+				if res.TimedOut || crashRe.MatchString(res.Out) {
+					return obs, withHistory(pbt.Fail(sig("C04", "internal-crash"), "build with an unwritable blob store crashed or hung\n%s", clip(res.Out)), obs)
+				}
+			}
+			obs.Log = append(obs.Log, fmt.Sprintf("#%d %s %v (after %d ms) exit=%d started=%v ended=%v", i, st.Kind, buildArgs(o), st.V, res.Exit, SortedKeysInt(res.Started), SortedKeys(res.Ended)))
+			started, ended := map[string]bool{}, map[string]bool{}
+			for l, n := range res.Started {
+				started[l] = n > 0
+			}
+			for l := range res.Ended {
+				ended[l] = true
+			}
+			model.Ext.Markers = sb.ReadMarkers()
+			model.Commit(w, o, pred, started, ended, true)
+			model.CacheFault() // whatever was being written may or may not be there
+			if orc.Audit {
+				if err := auditSandbox(sb); err != nil {
+					return obs, withHistory(err, obs)
+				}
+			}
 		case st.Kind == "taint":
 			t := w.target(st.T)
 			if t == nil {
@@ -384,6 +454,25 @@ func RunHistory(h History, bin string, orc Oracles) (*Observation, error) {
 		return obs, &pbt.Violation{Sig: k, Msg: "known finding observed; history otherwise clean\n--- history\n" + strings.Join(obs.Log, "\n")}
 	}
 	return obs, nil
+}
+
+// auditSandbox: every visible blob has its digest's content, every target result decodes, carries its key and
+// references only blobs that are present (C07).
+func auditSandbox(sb *Sandbox) error {
+	for _, c := range sb.CacheDirs() {
+		st, err := audit.LoadDir(c)
+		if err != nil {
+			return fmt.Errorf("harness: audit: %w", err)
+		}
+		if ps := audit.Check(st); len(ps) > 0 {
+			var msgs []string
+			for _, p := range ps {
+				msgs = append(msgs, p.Kind+": "+p.Msg)
+			}
+			return pbt.Fail(sig("C07", ps[0].Kind), "the persistent cache is inconsistent:\n%s", strings.Join(msgs, "\n"))
+		}
+	}
+	return nil
 }
 
 func withHistory(err error, obs *Observation) error {
